@@ -80,16 +80,17 @@ template <template <class> class QT> struct Row {
     for (auto& q : all) if (os.find(q) != os.end() && us.find(q) != us.end() && os.count(q) == 1 && us.count(q) == 1) found++;
     out3[0] = (int)os.size(); out3[1] = (int)us.size(); out3[2] = found;
   }
-  template <class T2> static void cast_to(int via, const Q& src, VfLD* out) {
+  template <class T2> static void cast_to(int via, const Q& src, const VfLD* prior, VfLD* out) {
     using Q2 = QT<T2>;
     if (via == 0) { Q2 r(src); flat(r, out); }
-    else { VfLD z[9] = {7, -3, 5, 11, -13, 2, 17, -19, 23}; Q2 r = make<Q2, T2>(z); r = src; flat(r, out); }   // the target already holds a value: assignment must replace it
+    else if (via == 1) { VfLD z[9] = {7, -3, 5, 11, -13, 2, 17, -19, 23}; Q2 r = make<Q2, T2>(z); r = src; flat(r, out); }   // the target already holds a value: assignment must replace it
+    else { Q2 r = make<Q2, T2>(prior); r = src; flat(r, out); }                                                                // ... a value related to the one being assigned
   }
-  static void cast(int to_nt, int via, const VfLD* in, VfLD* stored_src, VfLD* out) {
+  static void cast(int to_nt, int via, const VfLD* in, const VfLD* prior, VfLD* stored_src, VfLD* out) {
     const Q src = make<Q, T>(in); flat(src, stored_src);
-    if (to_nt == 0) { if constexpr (!std::is_same_v<T, float>) cast_to<float>(via, src, out); else flat(src, out); }
-    else if (to_nt == 1) { if constexpr (!std::is_same_v<T, double>) cast_to<double>(via, src, out); else flat(src, out); }
-    else { if constexpr (!std::is_same_v<T, long double>) cast_to<long double>(via, src, out); else flat(src, out); }
+    if (to_nt == 0) { if constexpr (!std::is_same_v<T, float>) cast_to<float>(via, src, prior, out); else flat(src, out); }
+    else if (to_nt == 1) { if constexpr (!std::is_same_v<T, double>) cast_to<double>(via, src, prior, out); else flat(src, out); }
+    else { if constexpr (!std::is_same_v<T, long double>) cast_to<long double>(via, src, prior, out); else flat(src, out); }
   }
   static const char* print_number(VfLD x, unsigned long* len) { return ret_str(PhQ::Print<T>((T)x), len); }
   static int parse_number(const char* text, unsigned long len, VfLD* out) { const std::optional<T> r = PhQ::ParseNumber<T>(std::string(text, len)); if (!r.has_value()) return 0; *out = r.value(); return 1; }
